@@ -825,6 +825,20 @@ func ruleC07R7(r *Run) {
 		n++
 		name := fnName(lit.Fn)
 		l := p.Leaves(v, provOpts{IntoCallees: true, ParamDepth: 1})
+		// the alias may travel from the helper that issued it in a small result struct: expand fields of unexported
+		// struct types of package iscp by what is stored into them
+		var carriers []string
+		for _, x := range l {
+			if strings.HasPrefix(x, "field:/iscp.") {
+				rest := strings.TrimPrefix(x, "field:/iscp.")
+				if rest != "" && rest[0] >= 'a' && rest[0] <= 'z' {
+					carriers = append(carriers, strings.TrimPrefix(x, "field:"))
+				}
+			}
+		}
+		if len(carriers) > 0 {
+			l = p.LeavesExpanded(v, provOpts{IntoCallees: true, ParamDepth: 1}, carriers...)
+		}
 		okNext := hasLeaf(l, "call:/wire.AliasGenerator.Next")
 		other := ""
 		for _, x := range l {
